@@ -147,6 +147,16 @@ def gen(tier, seed, shard, nshards):
             if idx % nshards == shard:
                 yield "offdiag4", {"p": 4, "code": code, "dtype": "int64" if code % 2 else "float64"}
             idx += 1
+    # (a') pairs of different matrices with IDENTICAL raw bytes (other shape, other dtype), asked one after the other
+    k = 0
+    for p in (1, 2, 3):
+        for code in range(2 ** (p * p)):
+            for (d1, d2, f) in (("int32", "int8", 2), ("int64", "int16", 2), ("uint32", "uint8", 2)):
+                if f is None:
+                    continue
+                if k % nshards == shard:
+                    yield "byte-alias", {"p": p, "code": code, "d1": d1, "d2": d2, "factor": f, "first": k % 2}
+                k += 1
     # (b) adversarial, seeded
     for k in range(N_ADV[tier]):
         if k % nshards == shard:
@@ -171,6 +181,37 @@ def _kahn_cyclic(out):
 def judge(family, case, rec):
     import sempler
     import sempler.utils as U
+    if family == "byte-alias":
+        p, code = case["p"], case["code"]
+        X = np.array([(code >> b) & 1 for b in range(p * p)], dtype=case["d1"]).reshape(p, p)
+        q = p * case["factor"]
+        Y = np.frombuffer(X.tobytes(), dtype=case["d2"]).reshape(q, q).copy()
+        pair = (X, Y) if case["first"] else (Y, X)
+        rec.case(family, case, True, key=("ba", p, code, case["d1"], case["d2"], case["first"]))
+        for M in pair:
+            out = gmat.masks(M)
+            cyclic = G.has_cycle(out)
+            rec.count("oracle:cyclic" if cyclic else "oracle:acyclic")
+            try:
+                r = bool(U.is_dag(M))
+            except Exception as e:
+                rec.exception_violation("C03:is_dag-exception", family, case, "is_dag raised", e)
+                continue
+            if r == cyclic:
+                rec.violation("C03:is_dag-wrong-" + ("cyclic-accepted" if cyclic else "acyclic-rejected"), family, case,
+                              "is_dag=%s for a %s %dx%d matrix asked right after a %s matrix with the same raw bytes"
+                              % (r, M.dtype, len(M), len(M), "different"), matrix=M)
+            try:
+                order = U.topological_ordering(M)
+                if cyclic or not G.is_topological_order(order, out):
+                    rec.violation("C03:order-invalid" if not cyclic else "C03:order-returned-for-cyclic", family, case,
+                                  "topological_ordering returned %s" % (list(map(int, order)),), matrix=M)
+            except ValueError:
+                if not cyclic:
+                    rec.violation("C03:order-valueerror-for-dag", family, case, "topological_ordering raised ValueError for a DAG", matrix=M)
+            except Exception as e:
+                rec.exception_violation("C03:order-exception", family, case, "topological_ordering raised a non-ValueError", e)
+        return
     if family == "ternary":
         A = ternary_matrix(case["p"], case["code"], case["dtype"])
         key = (case["p"], case["code"])
